@@ -21,6 +21,7 @@ import (
 	"reduction.dev/reduction/proto/jobpb"
 	"reduction.dev/reduction/proto/snapshotpb"
 	"reduction.dev/reduction/proto/workerpb"
+	"reduction.dev/reduction/storage/snapshots"
 	"verifharness/coord"
 	"verifharness/hx"
 )
@@ -31,12 +32,13 @@ type op struct {
 	N    int
 }
 type prog struct {
-	Workers int // configured WorkerCount
-	Ops     []op
+	Workers       int // configured WorkerCount
+	FromSavepoint bool
+	Ops           []op
 }
 
 func gen(rt *rapid.T) prog {
-	p := prog{Workers: rapid.IntRange(1, 3).Draw(rt, "workers")}
+	p := prog{Workers: rapid.IntRange(1, 3).Draw(rt, "workers"), FromSavepoint: rapid.IntRange(0, 2).Draw(rt, "fromsavepoint") == 0}
 	n := rapid.IntRange(3, 40).Draw(rt, "n")
 	for i := 0; i < n; i++ {
 		p.Ops = append(p.Ops, op{
@@ -219,9 +221,49 @@ func exec(p prog, c *hx.Case) error {
 	clock := hx.NewClock()
 	loc := coord.NewLoc("/job")
 	errc := make(chan error, 64)
+	// In a third of the cases the job process is started from a savepoint (made
+	// here by a real Store): every later assembly start of that process must still
+	// deploy from the newest completed checkpoint, not go back to the savepoint.
+	savepointURI := ""
+	var firstID uint64
+	if p.FromSavepoint {
+		ev := make(chan string, 4)
+		s0 := snapshots.NewStore(&snapshots.NewStoreParams{FileStore: loc, SavepointsPath: "savepoints", CheckpointsPath: "checkpoints", CheckpointEvents: ev, ErrChan: errc})
+		s0.RegisterSourceSplitter(&splitter{})
+		id, _, serr := s0.CreateSavepoint([]string{"old-op"}, []string{"old-sr"})
+		if serr != nil {
+			return hx.Errf("fixture savepoint: %v", serr)
+		}
+		loc.Put("work/old-op/checkpoints", []byte(fmt.Sprintf(`{"checkpoints":[{"id":%d,"wals":[],"levels":[]}]}`, id)))
+		if err := s0.AddOperatorSnapshot(&snapshotpb.OperatorCheckpoint{CheckpointId: id, OperatorId: "old-op", DkvFileUri: "/job/work/old-op/checkpoints",
+			KeyGroupRange: &snapshotpb.KeyGroupRange{Start: 0, End: 8}}); err != nil {
+			return hx.Errf("fixture savepoint: %v", err)
+		}
+		if err := s0.AddSourceSnapshot(&jobpb.SourceRunnerCheckpointCompleteRequest{CheckpointId: id, SourceRunnerId: "old-sr", SplitStates: [][]byte{[]byte("s")}}); err != nil {
+			return hx.Errf("fixture savepoint: %v", err)
+		}
+		select {
+		case <-ev:
+		case e := <-errc:
+			return hx.Errf("fixture savepoint: %v", e)
+		case <-time.After(10 * time.Second):
+			return &hx.Inconclusive{Why: "fixture savepoint not published"}
+		}
+		uri, uerr := s0.SavepointURIForID(id)
+		if uerr != nil || uri == "" {
+			return hx.Errf("fixture savepoint: no URI: %v", uerr)
+		}
+		savepointURI, firstID = uri, id
+		// the working storage of that earlier job is gone; only the savepoint is left
+		for _, f := range loc.Files() {
+			if !strings.Contains(f, "/savepoints/") {
+				loc.Remove(strings.TrimPrefix(f, "/job/"))
+			}
+		}
+	}
 	job, err := jobs.New(&jobs.NewParams{
 		JobConfig: &config.Config{WorkerCount: p.Workers, KeyGroupCount: 8, WorkingStorageLocation: "/work", Sources: []connectors.SourceConfig{srcCfg{}}},
-		Clock:     clock, Store: loc, ErrChan: errc,
+		Clock:     clock, Store: loc, ErrChan: errc, SavepointURI: savepointURI,
 		OperatorFactory:     func(sender string, n *jobpb.NodeIdentity) proto.Operator { return &fakeOp{w: w, id: n.Id} },
 		SourceRunnerFactory: func(n *jobpb.NodeIdentity) proto.SourceRunner { return &fakeSR{w: w, id: n.Id} },
 	})
@@ -337,7 +379,7 @@ func exec(p prog, c *hx.Case) error {
 	var pendingCkpt uint64
 	var acked map[string]bool
 	seen := 0
-	var lastPublished uint64
+	lastPublished := firstID // (the savepoint the process was started from, if any)
 	kills, killsDuringCkpt, standby, recoveries, ckptsAfterRecovery, deployFailures := 0, 0, 0, 0, 0, 0
 	snapshotCount := func() (n int, newest uint64) {
 		for _, j := range loc.Journal() {
@@ -640,6 +682,7 @@ func exec(p prog, c *hx.Case) error {
 	c.LabelIf(kills > 0, "heartbeat-loss")
 	c.LabelIf(killsDuringCkpt > 0, "loss-during-checkpoint")
 	c.LabelIf(standby > 0, "standby-present")
+	c.LabelIf(p.FromSavepoint, "job-process-started-from-a-savepoint")
 	c.LabelIf(windows > 0, "member-left-while-its-round-was-being-deployed")
 	c.LabelIf(ckptsAfterRecovery > 0, "checkpoint-after-recovery")
 	if recoveries > 0 && ckptsAfterRecovery > 0 {
@@ -649,5 +692,5 @@ func exec(p prog, c *hx.Case) error {
 }
 
 func TestPropJob(t *testing.T) {
-	hx.Run(t, hx.Spec{Prop: "C15", Persist: true, Rule: "the real jobs.Job (WorkerCount 1..3, FrozenClock, journaling StorageLocation, harness source splitter) with recording fake operators and source runners: 3..40 steps of starting workers, graceful stops (deregistration), kills (heartbeats stop, clock passes the deadline), checkpoint-timer ticks, full or partial acknowledgements, injected Deploy failures, deployment windows (the Deploy calls of the next round block; meanwhile a drawn member deregisters or stops heartbeating; then the round is let go); after every step all live workers re-register and the recorded calls are examined: every deployment addresses exactly WorkerCount operators and runners that are registered and live, hands over the latest completed checkpoint, StartCheckpoint only goes to the current healthy assembly, a tick on a healthy idle assembly starts a checkpoint, full acknowledgement publishes a snapshot, and with enough live workers a lost assembly is replaced (bounded progress); non-trivial = >=1 recovery followed by a completed checkpoint"}, gen, exec)
+	hx.Run(t, hx.Spec{Prop: "C15", Persist: true, Rule: "the real jobs.Job (WorkerCount 1..3, in a third of the cases started from a savepoint made by a real Store, FrozenClock, journaling StorageLocation, harness source splitter) with recording fake operators and source runners: 3..40 steps of starting workers, graceful stops (deregistration), kills (heartbeats stop, clock passes the deadline), checkpoint-timer ticks, full or partial acknowledgements, injected Deploy failures, deployment windows (the Deploy calls of the next round block; meanwhile a drawn member deregisters or stops heartbeating; then the round is let go); after every step all live workers re-register and the recorded calls are examined: every deployment addresses exactly WorkerCount operators and runners that are registered and live, hands over the latest completed checkpoint, StartCheckpoint only goes to the current healthy assembly, a tick on a healthy idle assembly starts a checkpoint, full acknowledgement publishes a snapshot, and with enough live workers a lost assembly is replaced (bounded progress); non-trivial = >=1 recovery followed by a completed checkpoint"}, gen, exec)
 }
